@@ -240,9 +240,17 @@ class Layout(object):
             el = Elem(it.src.kind, 0, it.src.start + it.start * it.src.step)
             it.start += 1
             return el
-        if isinstance(c.func, ast.Attribute):
-            base = self.ev(c.func.value)
-            meth = c.func.attr
+        bound = None
+        if isinstance(c.func, ast.Name):
+            bv = self.env.get(c.func.id)
+            if isinstance(bv, tuple) and len(bv) == 3 and bv[0] == "bound":
+                bound = bv
+        if isinstance(c.func, ast.Attribute) or bound is not None:
+            if bound is not None:
+                base, meth = bound[1], bound[2]          # `add = self._keys.append` ... `add(x)`
+            else:
+                base = self.ev(c.func.value)
+                meth = c.func.attr
             if isinstance(base, Cursor) and meth == "pop" and not args and isinstance(base.src, Tup):
                 if base.b >= len(base.src.items):
                     raise AnalysisError("layout: pop() from an exhausted sequence (line %s)" % c.lineno)
@@ -375,6 +383,8 @@ class Layout(object):
             elif isinstance(v, ast.List):
                 val = Built()
                 val.prefix = [self.ev(x) for x in v.elts]
+            elif isinstance(v, ast.Attribute) and v.attr in ("append", "extend", "pop"):
+                val = ("bound", self.ev(v.value), v.attr)       # a bound method kept in a local
             else:
                 val = self.ev(v)
                 # an element of the raw state that is itself a sequence
@@ -398,6 +408,21 @@ class Layout(object):
             if isinstance(st, ast.For):
                 self.bind_loop(st.target, st.iter)
             skip = False
+            if isinstance(st, ast.While) and isinstance(st.test, ast.Compare) and len(st.test.ops) == 1 and \
+                    isinstance(st.test.ops[0], (ast.Lt, ast.NotEq)) and isinstance(st.test.left, ast.Name):
+                # `while i < n: ... i += k`: i is the induction variable k*j + i0
+                iv = st.test.left.id
+                i0 = self.index(ast.Name(id=iv, ctx=ast.Load()))
+                steps = [x for x in st.body if isinstance(x, ast.AugAssign) and isinstance(x.target, ast.Name)
+                         and x.target.id == iv and isinstance(x.op, ast.Add)
+                         and isinstance(x.value, ast.Constant) and isinstance(x.value.value, int)]
+                others = [x for x in ast.walk(st) if isinstance(x, (ast.Assign, ast.AugAssign)) and x not in steps and any(
+                    isinstance(t, ast.Name) and t.id == iv
+                    for t in (x.targets if isinstance(x, ast.Assign) else [x.target]))]
+                if i0 is not None and i0[0] == 0 and len(steps) == 1 and steps[0] is st.body[-1] and not others:
+                    self.env[iv] = ("idx", (steps[0].value.value, i0[1]))
+                    st = ast.While(test=st.test, body=list(st.body[:-1]), orelse=[])
+                    ast.copy_location(st, steps[0])
             if isinstance(st, ast.While) and isinstance(st.test, ast.Name):
                 cv = self.env.get(st.test.id)
                 if isinstance(cv, Cursor) and isinstance(cv.src, Tup) and cv.b >= len(cv.src.items):
@@ -419,6 +444,16 @@ class Layout(object):
             return
         if isinstance(st, (ast.Pass, ast.Assert)):
             return
+        if isinstance(st, ast.AugAssign) and isinstance(st.op, ast.Add) and isinstance(st.target, ast.Name):
+            base = self.env.get(st.target.id)
+            if isinstance(base, Built):
+                # seq += (a, b)  is  seq.extend((a, b))
+                v = self.ev(st.value)
+                items = v.items if isinstance(v, Tup) else None
+                if items is None:
+                    raise AnalysisError("layout: += with %r (line %s)" % (v, st.lineno))
+                (base.cycle if self.loop is not None else base.prefix).extend(items)
+                return
         raise AnalysisError("layout: statement %s (line %s)" % (type(st).__name__, st.lineno))
 
     def block(self, stmts, guards):
